@@ -1,6 +1,7 @@
 import ComposeVerif.Ops.Common
 import ComposeVerif.Model.Include
 import ComposeVerif.Model.IncludePipe
+import ComposeVerif.Model.IncludeResolve
 /-! line-protocol ops for C06: `applyInclude`, `importResources`, `includeConfig`, `fpath` -/
 open Lean
 namespace CV.Ops.C06
@@ -112,9 +113,24 @@ def cloneOptionsOp : Handler := fun args =>
       ("Listeners", Json.bool (c.listeners == o.listeners)),
       ("ResourceLoaders", Json.bool (c.resourceLoaders == o.resourceLoaders))])]
 
+/-- one resolver of loader/environment.go (`which` = services | secrets | configs), `ResolveEnvironment` (all), or the
+last statement of `loadYamlModel` for an included model (included) -/
+def resolveEnvOp : Handler := fun args =>
+  let env := envOf args "env"
+  match valOf (getObj args "model") with
+  | .map model =>
+    let r := match getStr args "which" with
+      | "services" => resolveServicesEnvironment env model
+      | "secrets" => resolveSecretsEnvironment env model
+      | "configs" => resolveConfigsEnvironment env model
+      | "included" => resolveModelEnv true env model
+      | _ => resolveModelEnv false env model
+    Json.mkObj [("ok", kvsJson r)]
+  | _ => Json.mkObj [("bad", "model")]
+
 def handlers : List (String × Handler) :=
   [("applyInclude", applyIncludeOp), ("importResources", importResourcesOp),
    ("includeConfig", includeConfigOp), ("fpath", fpathOp),
-   ("envFromFile", envFromFileOp), ("cloneOptions", cloneOptionsOp)]
+   ("envFromFile", envFromFileOp), ("cloneOptions", cloneOptionsOp), ("resolveEnv", resolveEnvOp)]
 
 end CV.Ops.C06
